@@ -1,6 +1,6 @@
 import tqdm
 import copy
-from decimal import getcontext
+from decimal import getcontext, Decimal
 from .auxiliary import *
 from .node import Node
 from .exactnode import ExactNode, ExactArrivalNode
@@ -58,7 +58,7 @@ class Simulation(object):
         else:
             self.statetracker = tracker
         self.statetracker.initialise(self)
-        self.times_dictionary = {self.statetracker.hash_state(): 0.0}
+        self.times_dictionary = {self.statetracker.hash_state(): Decimal("0") if exact else 0.0}
         self.times_to_deadlock = {}
         self.unchecked_blockage = False
 
